@@ -6,6 +6,9 @@
 #include <ksi/ksi.h>
 #include <ksi/policy.h>
 #include <ksi/signature.h>
+#include <ksi/signature_helper.h>
+#include <ksi/hashchain.h>
+#include <ksi/publicationsfile.h>
 #include "hx.h"
 #include "fault.h"
 
@@ -67,6 +70,42 @@ next:
 			else { KSI_Signature *p = NULL; rc = KSI_Signature_parseWithPolicy(ctx, raw, len, KSI_VERIFICATION_POLICY_EMPTY, NULL, &p); if (rc == KSI_OK) src = KSI_Signature_serialize(p, &ser, &sl); KSI_Signature_free(p); }
 			printf("%s rc=%d ser=%s\n", tok[0], rc, rc != KSI_OK ? "-" : src != KSI_OK ? "ERR" : (sl == len && memcmp(ser, raw, len) == 0) ? "same" : "diff");
 			KSI_free(ser); free(raw);
+		} else if (!strcmp(tok[0], "X")) {
+			/* X <sigHex>: parse (structure only) and then do everything a caller can do with the object (C12) -> X parse=.. ser=.. clone=.. int=.. gen=.. id=<n> misc=.. */
+			size_t len; unsigned char *raw = hx_dec(tok[1], &len); KSI_Signature *sig = NULL, *cl = NULL; int prc;
+			prc = KSI_Signature_parseWithPolicy(ctx, raw, len, KSI_VERIFICATION_POLICY_EMPTY, NULL, &sig);
+			printf("X parse=%d", prc);
+			if (prc == KSI_OK) {
+				unsigned char *ser = NULL; size_t sl = 0; int rc; KSI_PolicyVerificationResult *result = NULL; KSI_VerificationContext vc; const KSI_Policy *pols[3]; int k;
+				KSI_HashChainLinkIdentityList *ids = NULL; KSI_Integer *t = NULL; KSI_DataHash *dh = NULL; KSI_HashAlgorithm alg; char buf[4096]; size_t i, nid = 0;
+				rc = KSI_Signature_serialize(sig, &ser, &sl); printf(" ser=%d", rc); KSI_free(ser); ser = NULL;
+				rc = KSI_Signature_clone(sig, &cl); printf(" clone=%d", rc);
+				if (rc == KSI_OK) { rc = KSI_Signature_serialize(cl, &ser, &sl); KSI_free(ser); }
+				pols[0] = KSI_VERIFICATION_POLICY_INTERNAL; pols[1] = KSI_VERIFICATION_POLICY_GENERAL; pols[2] = KSI_VERIFICATION_POLICY_KEY_BASED;
+				for (k = 0; k < 3; k++) { KSI_VerificationContext_init(&vc, ctx); vc.signature = sig; result = NULL; rc = KSI_SignatureVerifier_verify(pols[k], &vc, &result);
+					printf(" v%d=%d/%d", k, rc, (rc == KSI_OK && result) ? (int)result->finalResult.resultCode : -1); KSI_PolicyVerificationResult_free(result); KSI_VerificationContext_clean(&vc); }
+				rc = KSI_Signature_getAggregationHashChainIdentity(sig, &ids);
+				if (rc == KSI_OK) { nid = KSI_HashChainLinkIdentityList_length(ids);
+					for (i = 0; i < nid; i++) { KSI_HashChainLinkIdentity *id = NULL; KSI_Utf8String *c = NULL, *m = NULL; KSI_Integer *sq = NULL, *rt = NULL; KSI_HashChainLinkIdentityType ty;
+						KSI_HashChainLinkIdentityList_elementAt(ids, i, &id); KSI_HashChainLinkIdentity_getType(id, &ty); KSI_HashChainLinkIdentity_getClientId(id, &c); KSI_HashChainLinkIdentity_getMachineId(id, &m);
+						KSI_HashChainLinkIdentity_getSequenceNr(id, &sq); KSI_HashChainLinkIdentity_getRequestTime(id, &rt);
+						if (c) snprintf(buf, sizeof(buf), "%s", KSI_Utf8String_cstr(c)); if (m) snprintf(buf, sizeof(buf), "%s", KSI_Utf8String_cstr(m)); if (rt) KSI_Integer_toDateString(rt, buf, sizeof(buf)); (void)sq; } }
+				printf(" id=%d/%zu", rc, nid); KSI_HashChainLinkIdentityList_free(ids);
+				rc = KSI_Signature_getSigningTime(sig, &t); if (rc == KSI_OK && t) KSI_Integer_toDateString(t, buf, sizeof(buf));
+				rc |= KSI_Signature_getDocumentHash(sig, &dh); if (dh) KSI_DataHash_toString(dh, buf, sizeof(buf));
+				rc |= KSI_Signature_getHashAlgorithm(sig, &alg);
+				{ KSI_PublicationRecord *pr = NULL; KSI_Signature_getPublicationRecord(sig, &pr); if (pr) KSI_PublicationRecord_toString(pr, buf, sizeof(buf)); }
+				{ KSI_DataHash *ph = NULL; KSI_Utf8String *ps = NULL; time_t pd = 0; KSI_LIST(KSI_Utf8String) *refs = NULL, *urls = NULL; int r2 = KSI_Signature_getPublicationInfo(sig, &ph, &ps, &pd, &refs, &urls);
+				  printf(" misc=%d pubinfo=%d", rc, r2); KSI_DataHash_free(ph); KSI_Utf8String_free(ps); KSI_Utf8StringList_free(refs); KSI_Utf8StringList_free(urls); }
+			}
+			printf("\n");
+			KSI_Signature_free(cl); KSI_Signature_free(sig); free(raw);
+		} else if (!strcmp(tok[0], "HN")) {
+			/* HN <nameHex>: hash algorithm lookup by name */
+			size_t l; unsigned char *b = hx_dec(tok[1], &l); char *nm = H_MALLOC(l + 1); KSI_HashAlgorithm a; memcpy(nm, b, l); nm[l] = 0;
+			a = KSI_getHashAlgorithmByName(nm); printf("HN %d", (int)a);
+			if (KSI_isHashAlgorithmSupported(a)) printf(" %s len=%u", KSI_getHashAlgorithmName(a), KSI_getHashLength(a));
+			printf("\n"); free(nm); free(b);
 		} else if (!strcmp(tok[0], "LOG")) {
 			KSI_CTX_setLoggerCallback(ctx, KSI_LOG_StreamLogger, fopen("/dev/null", "w"));
 			KSI_CTX_setLogLevel(ctx, atoi(tok[1]));
